@@ -21,7 +21,8 @@ type Sel struct {
 	Scope    []string // package scope handed to the rule (nil = rule default)
 	Rules    []string // obligation rule ids to keep (prefix match); nil = all
 	Prefixes []string // construct prefixes to keep; nil = all
-	Contains []string // if set, the construct must contain one of these
+	Contains []string // if set, the construct must contain one of these …
+	Topics   []string // … or the obligation's topic must be one of these
 	Exclude  []string // constructs containing one of these are dropped
 }
 
@@ -105,10 +106,15 @@ func keep(s Sel, o *rules.Obligation) bool {
 			return false
 		}
 	}
-	if s.Contains != nil {
+	if s.Contains != nil || s.Topics != nil {
 		ok := false
 		for _, p := range s.Contains {
 			if strings.Contains(o.Construct, p) {
+				ok = true
+			}
+		}
+		for _, t := range s.Topics {
+			if o.Topic == t {
 				ok = true
 			}
 		}
@@ -173,8 +179,13 @@ func Run(prog *core.Prog, p *Property, findings []Finding) *Result {
 	}
 	sort.Strings(fk)
 	for _, k := range fk {
-		if counts[k] < p.Floors[k] {
-			msg := fmt.Sprintf("rule %s produced %d obligations for %s, fewer than the %d instances confirmed by hand", k, counts[k], p.ID, p.Floors[k])
+		// The floor guards against a rule that silently stops matching (a vacuous pass). It is not an
+		// exact count: a refactor that merges three identical sections into one helper legitimately
+		// lowers the number of instances, so the check fires below two thirds of the confirmed count;
+		// the individual anchors every row needs are guarded separately (anchor-missing, expect()).
+		min := (p.Floors[k]*2 + 2) / 3
+		if counts[k] < min {
+			msg := fmt.Sprintf("rule %s produced %d obligations for %s, fewer than two thirds (%d) of the %d instances confirmed by hand", k, counts[k], p.ID, min, p.Floors[k])
 			res.FloorFails = append(res.FloorFails, msg)
 			res.Obls = append(res.Obls, &rules.Obligation{Rule: "instance-floor", Construct: p.ID + "/" + k, Pos: "-", Verdict: rules.Violated, Detail: msg})
 		}
